@@ -167,6 +167,25 @@ func genConcSeparate(b *builder, c *corpus, nSites int) {
 	b.drawFaults(nSites, true)
 }
 
+// F4b: separate modules, every caller using the SAME back end kind at the same
+// time (shared state inside one back end: scratch buffers, memo tables, pools).
+func genConcSameKind(b *builder, c *corpus, nSites int) {
+	kind := pick(b.r, backendKinds)
+	nt := 2 + b.r.intn(3)
+	for i := 0; i < nt; i++ {
+		t := b.task()
+		p := pick(b.r, c.lowerable)
+		m, _ := b.lower(t, p)
+		for j := 0; j < 1+b.r.intn(3); j++ {
+			b.add(t, b.backendOp(kind, m))
+		}
+	}
+	b.drawFaults(nSites, true)
+	if b.sc.Sched.MeanQuantum == 0 {
+		b.sc.Sched.MeanQuantum = 500
+	}
+}
+
 // F5: one operation under a map-order fault (all sites / one site).
 func genMapOrder(b *builder, c *corpus, nSites int) {
 	t := b.task()
@@ -354,6 +373,7 @@ var familiesC12Thorough = []family{
 	{"reuse", 18, genReuse},
 	{"conc-shared", 22, genConcShared},
 	{"conc-separate", 12, genConcSeparate},
+	{"conc-same-kind", 10, genConcSameKind},
 	{"maporder", 14, genMapOrder},
 	{"private", 6, genPrivate},
 	{"scribble", 6, genScribble},
@@ -365,6 +385,7 @@ var familiesC12 = []family{
 	{"reuse", 18, genReuse},
 	{"conc-shared", 22, genConcShared},
 	{"conc-separate", 12, genConcSeparate},
+	{"conc-same-kind", 10, genConcSameKind},
 	{"maporder", 14, genMapOrder},
 	{"private", 6, genPrivate},
 	{"scribble", 6, genScribble},
